@@ -297,6 +297,18 @@ def pureQuery : List String → Option String
     match checkpointBatch gid b with
     | some d => some (hexOfBytes d)
     | none => some "panic"
+  | ["ckpt_call", gid, amounts, tokens, feeAmounts, feeTokens, addr, payload, timeout, scope, nonce] => do
+    let nats := fun (x : String) => if x == "-" then some [] else (x.splitOn ",").mapM (·.toNat?)
+    let addrs := fun (x : String) => if x == "-" then ([] : List Bytes) else (x.splitOn ",").map fun a => hexToBytes (strip0x a)
+    let hx := fun (x : String) => if x == "-" then ([] : Bytes) else hexToBytes x
+    let c : CallView := { transferAmounts := (← nats amounts), transferTokens := addrs tokens,
+                          feeAmounts := (← nats feeAmounts), feeTokens := addrs feeTokens,
+                          logicContract := hexToBytes (strip0x addr), payload := hx payload,
+                          timeout := (← timeout.toNat?), invalidationScope := hx scope,
+                          invalidationNonce := (← nonce.toNat?) }
+    match checkpointCall gid c with
+    | some d => some (hexOfBytes d)
+    | none => some "panic"
   | ["ethmsg", digest] => some (hexOfBytes (ethSignedMessage (hexToBytes digest)))
   | ["world", _] => some "ok"   -- a note to the monitors (how the external chains behave); no state
   | _ => none
